@@ -1261,6 +1261,11 @@ class Engine:
         if a.ty == "fn" and b.ty == "fn" and a.items and b.items and a.items[0] in ("class", "module") and b.items[0] in ("class", "module") and "class" in (a.items[0], b.items[0]):
             # two classes (type(e) is SomeError): the same class iff the canonical names agree
             return z3.BoolVal(self.bi.canon_class(self, str(a.items[1])) == self.bi.canon_class(self, str(b.items[1])))
+        if (a.ty == "fn") != (b.ty == "fn"):
+            f_, o_ = (a, b) if a.ty == "fn" else (b, a)
+            if o_.ty == "any" and f_.items and f_.items[0] in ("module", "class", "def") and (f_.py or f_.items[1]):
+                # an untyped value compared with a named function / class: it is that function iff it is the atom standing for it
+                return o_.z == atom("fn:" + str(f_.py or f_.items[1]))
         if a.ty == "fn" or b.ty == "fn":
             raise OutOfSubset("comparison of functions")
         if isinstance(a.ty, tuple) and a.ty[0] == "obj":
